@@ -520,6 +520,19 @@ func taintedSinks(fn *ssa.Function, isSource func(ssa.Value) bool) (map[ssa.Valu
 			if tainted[x.Index] {
 				sinks = append(sinks, taintSink{ins, x.Index, "index"})
 			}
+		case *ssa.Convert:
+			// a 64-bit size from the input squeezed into int / uint (32 bits on 386, arm) or a narrower type: the high
+			// bits are dropped silently and a huge declared size turns into a small plausible one
+			if tainted[x.X] {
+				src, ok1 := x.X.Type().Underlying().(*types.Basic)
+				dst, ok2 := x.Type().Underlying().(*types.Basic)
+				if ok1 && ok2 && (src.Kind() == types.Int64 || src.Kind() == types.Uint64) {
+					switch dst.Kind() {
+					case types.Int, types.Uint, types.Uintptr, types.Int32, types.Uint32, types.Int16, types.Uint16, types.Int8, types.Uint8:
+						sinks = append(sinks, taintSink{ins, x.X, "conversion to " + dst.Name()})
+					}
+				}
+			}
 		case *ssa.Call:
 			name := calleeName(x.Common())
 			if name == "(*bytes.Buffer).Grow" || name == "(*strings.Builder).Grow" || name == "bytes.Repeat" || name == "strings.Repeat" {
